@@ -16,7 +16,13 @@ RULE = ("layout trees of depth <= 3 (struct/union/array/flexible over u0..u5, s1
         "exception class; Layout.const and Signal(layout, init=...) with MIXED initialiser kinds (hdl.Const of narrower/wider/"
         "other-signed shapes, lib.data.Const of equal/different layouts, enum members, Python lists, nested dicts, "
         "overlapping flexible fields in varying order) read back through Const.__getitem__ and in the simulator; "
-        "shaped Enum/IntEnum const/from_bits; Flag classes (1-5 single bits + multi-bit members/aliases, "
+        "DESIGNS whose statements assign through view fields (m.d.comb / m.d.sync / both += view[path].eq(signal), "
+        "dynamic array index, enum and nested-layout targets with View.eq(View), data.Struct classes with attribute access, "
+        "fields up to 33 bits): compiled simulator AND the RTLIL emitted by back.rtlil, read back by harness/rtlil_read.py "
+        "and executed by Model/RtlilSem.run, both against Data.synth; results carry the kind of the returned object "
+        "(int / lib.data.Const of the field's layout / member of the field's enumeration); FlexibleLayout constructor "
+        "bounds; FlagView with plain-member / reflected / foreign operands (TypeError) and the default boundary; "
+        "Enum.const(None) / const(member); shaped Enum/IntEnum const/from_bits; Flag classes (1-5 single bits + multi-bit members/aliases, "
         "all four boundaries): CPython cls(v) and & | ^ ~ vs the Gallina rendering, FlagView & | ^ ~ in the simulator vs "
         "the model. non-trivial = layout has >= 1 field of non-zero width (layout kinds) or the class has >= 1 member and "
         "the answer is not an error (enum/flag kinds); distinct by case hash")
@@ -26,6 +32,8 @@ MODELLED = ("lib/data.py (StructLayout/UnionLayout/ArrayLayout/FlexibleLayout pl
             "FlagView operators) are modelled in coq/Model/Data.v; CPython enum.Flag._missing_ and operators are "
             "rendered in Gallina and validated against CPython by this run; Python object plumbing (dict ordering, "
             "Struct/Union annotation classes, format(), RTLIL path) is validated only")
+TRUSTED_EXTRA = ["strict RTLIL reader harness/rtlil_read.py (text -> Gallina doc; fail-closed) and the RTLIL semantics "
+                 "coq/Model/RtlilSem.v (both owned by C04, used read-only for the 'in synthesis' clause)"]
 ASSUMPTIONS = ["CPython 3.12 enum.Flag semantics as rendered by Data.py_flag_new (validated by the run)",
                "field names are distinct (guaranteed by Python dicts)"]
 
@@ -288,6 +296,192 @@ def _has_signed_view_enum(l):
     return False
 
 
+def span(l, p):
+    """(offset, width) of the field reached by path p — used by the GENERATOR only, to keep comb-driven and
+    clocked fields of one design bit-disjoint (answers never depend on it)."""
+    off = 0
+    for k in p:
+        t = l[0]
+        if t == "struct":
+            o = 0
+            for kk, f in l[1]:
+                if kk == k:
+                    break
+                o += lsize(f)
+        elif t == "union":
+            o = 0
+        elif t == "array":
+            o = k * lsize(l[1])
+        else:
+            o = [oo for kk, oo, _ in l[2] if kk == k][0]
+        off += o
+        l = sub(l, k)
+    return off, lsize(l)
+
+
+def gen_synth(rng):
+    """a design whose statements assign through view fields: layout, init, comb / clocked statements, stimulus."""
+    for _ in range(50):
+        l = gen_layout(rng, rng.randrange(1, 4), signed_enum=False, wide=rng.random() < 0.4)
+        if l[0] in ("leaf", "enum"):
+            l = ["struct", [[0, l], [1, list(rng.choice(LEAVES))]]]
+        n = lsize(l)
+        cands = [p for p in leaf_paths(l) if lsize(target(l, p)) > 0]
+        if 0 < n <= 70 and cands:
+            break
+    else:
+        l = ["struct", [[0, ["leaf", 3, False]], [1, ["leaf", 2, True]]]]
+        n, cands = 5, [[0], [1]]
+    mode = rng.choice(["comb", "sync", "mixed", "mixed"])
+    ins, stmts, used = [], [], {"comb": [], "sync": []}
+    rng.shuffle(cands)
+    for p in cands[:rng.randrange(1, 5)]:
+        t = target(l, p)
+        dyn = None
+        par = target(l, p[:-1])
+        if par[0] == "array" and rng.random() < 0.5:
+            nb = max(1, (par[2] - 1).bit_length()) + (1 if rng.random() < 0.4 else 0)
+            ins.append(["u", nb, False])
+            dyn = len(ins) - 1
+            sp = span(l, p[:-1])
+        else:
+            sp = span(l, p)
+        dom = mode if mode != "mixed" else rng.choice(["comb", "sync"])
+        def clash(d_):
+            return any(not (sp[0] + sp[1] <= o or o + w <= sp[0]) for o, w in used["sync" if d_ == "comb" else "comb"])
+        if clash(dom):
+            dom = "sync" if dom == "comb" else "comb"          # keep the two domains bit-disjoint
+            if clash(dom):
+                if dyn is not None:
+                    ins.pop()
+                continue
+        used[dom].append(sp)
+        if t[0] == "leaf":
+            w = t[1]
+            iw = max(1, rng.choice([w - 1, w, w, w + 2]))
+            ins.append(["u", iw, rng.random() < 0.5])
+        elif t[0] == "enum":
+            ins.append(["u", t[1], False])
+        else:
+            ins.append(["v", t])                                # a view of the same sub-layout: View.eq(View)
+        stmts.append({"dom": dom, "p": (p[:-1] if dyn is not None else p), "in": len(ins) - 1, "ix": dyn})
+
+    def rv(i):
+        if i[0] == "v":
+            return rng.randrange(0, 1 << lsize(i[1]))
+        lo, hi = (-(1 << (i[1] - 1)), 1 << (i[1] - 1)) if i[2] else (0, 1 << i[1])
+        return rng.choice([lo, hi - 1, rng.randrange(lo, hi)])
+    stim = []
+    for _ in range(3):
+        stim.append(["d", [[j, rv(i)] for j, i in enumerate(ins) if rng.random() < 0.8]])
+        if used["sync"]:
+            stim += [["c", 1], ["c", 0]]
+    return {"k": "synth", "l": l, "tv": rng.randrange(0, 1 << n), "ins": ins, "st": stmts, "stim": stim,
+            "cls": bool(l[0] == "struct" and rng.random() < 0.4)}
+
+
+def build_synth(c):
+    from amaranth.hdl import Module, Signal, ClockDomain, Shape
+    from amaranth.lib import data
+    lj = c["l"]
+    L = build(lj)
+    m = Module()
+    sig = Signal(L.size, init=c["tv"], name="v")
+    view = struct_class(lj)(sig) if c.get("cls") else data.View(L, sig)
+    ins, raw = [], []
+    for j, i in enumerate(c["ins"]):
+        if i[0] == "v":
+            x = Signal(build(i[1]), name=f"i{j}")
+            ins.append(x)
+            raw.append(x.as_value())
+        else:
+            x = Signal(Shape(i[1], i[2]), name=f"i{j}")
+            ins.append(x)
+            raw.append(x)
+    cd = None
+    if any(st["dom"] == "sync" for st in c["st"]):
+        m.domains.sync = cd = ClockDomain("sync", reset_less=True)
+    for st in c["st"]:
+        p = st["p"]
+        lhs = (walk_attr(view, lj, p) if c.get("cls") and p else walk(view, lj, p))
+        if st["ix"] is not None:
+            lhs = lhs[ins[st["ix"]]]
+        m.d[st["dom"]] += lhs.eq(ins[st["in"]])
+    return m, sig, raw, cd
+
+
+def sim_synth(c):
+    from amaranth.sim import Simulator
+    m, sig, raw, cd = build_synth(c)
+    out = []
+
+    async def tb(ctx):
+        out.append(ctx.get(sig))
+        for kind, arg in c["stim"]:
+            if kind == "d":
+                for j, v in arg:
+                    ctx.set(raw[j], v)
+            else:
+                ctx.set(cd.clk, arg)
+            out.append(ctx.get(sig))
+    sim = Simulator(m)
+    sim.add_testbench(tb)
+    sim.run()
+    return out
+
+
+def rtlil_synth(c):
+    """emit RTLIL with the real backend, read it back: Gallina doc, output port, initial inputs, stimulus"""
+    import rtlil_read as R
+    from amaranth.back import rtlil
+    from amaranth.hdl._ir import Fragment
+    m, sig, raw, cd = build_synth(c)
+    ports = list(raw) + ([cd.clk] if cd is not None else []) + [sig]
+    text, _ = rtlil.convert_fragment(Fragment.get(m, None), ports=ports, name="top", emit_src=False)
+    mods = R.parse(text)
+    top = mods[0]
+
+    def wire(name, kind, width):
+        wn = "\\" + name
+        if wn not in top.windex:
+            raise R.RtlilError(f"no wire {name}")
+        w = top.wires[top.windex[wn]]
+        if w.kind != kind or w.width != width:
+            raise R.RtlilError(f"wire {name}: {w.kind} {w.width}, expected {kind} {width}")
+        return top.windex[wn]
+    iw = [wire(f"i{j}", "input", len(r)) for j, r in enumerate(raw)]
+    cw = wire("clk", "input", 1) if cd is not None else None
+    ow = wire("v", "output", len(sig))
+    init_ins = [(w, 0) for w in iw] + ([(cw, 0)] if cw is not None else [])
+    stim = []
+    for kind, arg in c["stim"]:
+        if kind == "d":
+            stim.append([(iw[j], v & ((1 << len(raw[j])) - 1)) for j, v in arg])
+        else:
+            stim.append([(cw, arg)])
+    return R.coq_doc(mods), (ow, len(sig)), init_ins, stim
+
+
+def g_synth(c):
+    def asg(st):
+        ix = "None" if st["ix"] is None else f"(Some {st['ix']}%nat)"
+        return f"SAsg {zlist(st['p'])} {st['in']}%nat {ix}"
+    cas = "[" + "; ".join(asg(st) for st in c["st"] if st["dom"] == "comb") + "]"
+    sas = "[" + "; ".join(asg(st) for st in c["st"] if st["dom"] == "sync") + "]"
+    env0 = zlist([0] * len(c["ins"]))
+    steps = "[" + "; ".join(
+        ("SData [" + "; ".join(f"({j}%nat, {z(v)})" for j, v in arg) + "]") if kind == "d" else f"SClk {arg}"
+        for kind, arg in c["stim"]) + "]"
+    head = f"{g_layout(c['l'])} {z(c['tv'])} {cas} {sas} {env0} {steps}"
+    try:
+        doc, port, init_ins, stim = rtlil_synth(c)
+    except Exception as e:
+        return f"k_synth_nodoc {head} [{sum(map(ord, type(e).__name__))}]"
+    ii = "[" + "; ".join(f"({w}%nat, {z(v)})" for w, v in init_ins) + "]"
+    ss = "[" + "; ".join("[" + "; ".join(f"({w}%nat, {z(v)})" for w, v in st) + "]" for st in stim) + "]"
+    return f"k_synth {head}\n {doc}\n ({port[0]}%nat, {port[1]}) {ii} {ss}"
+
+
 def overlapping_flex(rng):
     """flexible layout whose fields overlap, for the last-writer-wins rule."""
     n = rng.randrange(2, 4)
@@ -306,6 +500,9 @@ def g_flag(c):
 LEAVES = [["leaf", w, False] for w in range(0, 6)] + [["leaf", w, True] for w in range(1, 6)]
 
 
+LEAVES_WIDE = [["leaf", w, sg] for w in (7, 8, 9, 16, 17, 31, 33) for sg in (False, True)]
+
+
 def gen_enum_leaf(rng, allow_signed=False):
     w = rng.randrange(1, 4)
     sg = allow_signed and rng.random() < 0.5
@@ -315,9 +512,11 @@ def gen_enum_leaf(rng, allow_signed=False):
     return ["enum", w, sg, rng.random() < 0.6, ms]
 
 
-def gen_layout(rng, depth, signed_enum=False):
+def gen_layout(rng, depth, signed_enum=False, wide=False):
     r = rng.random()
     if depth == 0 or r < 0.25:
+        if wide and rng.random() < 0.3:
+            return list(rng.choice(LEAVES_WIDE))
         if rng.random() < 0.15:
             return gen_enum_leaf(rng, signed_enum)
         return list(rng.choice(LEAVES))
@@ -325,12 +524,12 @@ def gen_layout(rng, depth, signed_enum=False):
     if kind in ("struct", "union"):
         n = rng.randrange(0, 4)
         keys = rng.sample(range(0, 6), n)
-        return [kind, [[k, gen_layout(rng, depth - 1, signed_enum)] for k in keys]]
+        return [kind, [[k, gen_layout(rng, depth - 1, signed_enum, wide)] for k in keys]]
     if kind == "array":
-        return ["array", gen_layout(rng, depth - 1, signed_enum), rng.randrange(0, 4)]
+        return ["array", gen_layout(rng, depth - 1, signed_enum, wide), rng.randrange(0, 4)]
     n = rng.randrange(0, 4)
     keys = rng.sample(range(0, 6), n)
-    fs = [[k, rng.randrange(0, 6), gen_layout(rng, depth - 1, signed_enum)] for k in keys]
+    fs = [[k, rng.randrange(0, 6), gen_layout(rng, depth - 1, signed_enum, wide)] for k in keys]
     need = max([o + lsize(f) for _, o, f in fs], default=0)
     return ["flex", need + rng.randrange(0, 3), fs]
 
@@ -417,6 +616,8 @@ def gen_flagcls(rng):
         m |= v
     need = max(m.bit_length(), 1)
     w = need + rng.choice([0, 0, 0, 1, 2]) if rng.random() < 0.9 else max(1, need - 1)
+    if rng.random() < 0.15:
+        return {"w": w, "ms": ms, "b": "STRICT", "defb": True}      # no boundary= argument
     return {"w": w, "ms": ms, "b": rng.choice(BOUNDS)}
 
 
@@ -460,7 +661,7 @@ def gen_cases(tier, seed):
     N = 700 if not thorough else 6000
     for it in range(N):
         depth = rng.randrange(1, 4)
-        l = gen_layout(rng, depth, signed_enum=rng.random() < 0.08)
+        l = gen_layout(rng, depth, signed_enum=rng.random() < 0.08, wide=rng.random() < 0.25)
         if l[0] in ("leaf", "enum"):
             l = ["struct", [[0, l]]]
         n = lsize(l)
@@ -489,7 +690,8 @@ def gen_cases(tier, seed):
             if rng.random() < 0.2:
                 ps.append([9])
             for _ in range(2):
-                cases.append({"k": "view", "l": l, "tv": rng.randrange(0, 1 << n), "ps": ps})
+                cases.append({"k": "view", "l": l, "tv": rng.randrange(0, 1 << n), "ps": ps,
+                              "cls": bool(l[0] == "struct" and rng.random() < 0.5)})
             # dynamic index
             arrs = [[]] if l[0] == "array" else []
             arrs += [p for p in leaf_paths(l) if target(l, p)[0] == "array"]
@@ -511,7 +713,7 @@ def gen_cases(tier, seed):
         # .const() read-back and Signal(layout, init=...) read-back in the simulator
         lx = l if it % 3 else overlapping_flex(rng)
         if it % 3 == 1:
-            lx = gen_layout(rng, depth, signed_enum=False)
+            lx = gen_layout(rng, depth, signed_enum=rng.random() < 0.15, wide=rng.random() < 0.5)
             if lx[0] in ("leaf", "enum"):
                 lx = ["struct", [[0, lx], [1, list(rng.choice(LEAVES))]]]
         for _ in range(3):
@@ -520,16 +722,24 @@ def gen_cases(tier, seed):
             rng.shuffle(xps)
             other = [p for p in leaf_paths(lx) if len(p) == 1 and p not in xps]     # neighbours must stay as they were
             cases.append({"k": "xconst", "l": lx, "i": xi, "ps": (xps[:6] + other[:3])})
-            if not _has_signed_view_enum(lx):
-                cases.append({"k": "siginit", "l": lx, "i": xi, "ps": (xps[:4] + other[:2])})
+            cases.append({"k": "siginit", "l": lx, "i": xi, "ps": (xps[:4] + other[:2])})
+    # --- designs assigning through view fields: compiled simulator + emitted RTLIL (read back, run by RtlilSem)
+    for it in range(320 if not thorough else 3000):
+        cases.append(gen_synth(rng))
+    # --- FlexibleLayout constructor: fields ending at / past the declared size
+    for it in range(60 if not thorough else 600):
+        fl = overlapping_flex(rng)
+        cases.append({"k": "flexnew", "sz": max(0, fl[1] + rng.choice([0, 0, -1, -2, 1])), "fs": fl[2]})
     # --- shaped enumerations
     for it in range(150 if not thorough else 1200):
         e = gen_enum_leaf(rng, allow_signed=True)
         w, sg, vw, ms = e[1], e[2], e[3], e[4]
         lo, hi = (-(1 << (w - 1)), (1 << (w - 1))) if sg else (0, 1 << w)
         for v in range(lo - 1, hi + 1):
-            cases.append({"k": "enum_const", "w": w, "sg": sg, "vw": vw, "ms": ms, "i": v})
+            cases.append({"k": "enum_const", "w": w, "sg": sg, "vw": vw, "ms": ms, "i": v,
+                          "mode": "member" if v in ms and rng.random() < 0.5 else "int"})
             cases.append({"k": "enum_bits", "w": w, "sg": sg, "vw": vw, "ms": ms, "raw": v})
+        cases.append({"k": "enum_const", "w": w, "sg": sg, "vw": vw, "ms": ms, "i": 0, "mode": "none"})   # const(None) = cls(0)
     # --- flags
     for it in range(260 if not thorough else 2500):
         c = gen_flagcls(rng)
@@ -549,9 +759,15 @@ def gen_cases(tier, seed):
             x, y = rng.choice(vals), rng.choice(vals)
             cases.append(dict(c, k="flag_fvop", o=rng.choice(["BAnd", "BOr", "BXor"]), x=x, y=y))
             cases.append(dict(c, k="flag_fvnot", x=x))
+        if valid:      # plain member operand (either side), and operands FlagView must refuse (TypeError)
+            for rhs in ("member", "rmember"):
+                cases.append(dict(c, k="flag_fvop", o=rng.choice(["BAnd", "BOr", "BXor"]), x=rng.choice(vals),
+                                  y=rng.choice(valid), rhs=rhs))
+        cases.append(dict(c, k="flag_fvbad", o=rng.choice(["BAnd", "BOr", "BXor"]), x=rng.choice(vals),
+                          rhs=rng.choice(["int", "other", "rint", "value"])))
         for v in rng.sample(range(-1, (1 << w) + 1), min(5, (1 << w) + 2)):
-            cases.append(dict(c, k="flag_bits", raw=v, intflag=rng.random() < 0.3))
-            cases.append(dict(c, k="flag_const", i=v, intflag=rng.random() < 0.3))
+            cases.append(dict(c, k="flag_bits", raw=v, intflag=(not c.get("defb")) and rng.random() < 0.3))
+            cases.append(dict(c, k="flag_const", i=v, intflag=(not c.get("defb")) and rng.random() < 0.3))
     return cases
 
 
@@ -568,6 +784,35 @@ def val(o):
     if isinstance(o, pe.Enum):
         return o.value
     return int(o)
+
+
+def tval(o, lj, p):
+    """[kind, value]: 0 int, 1 lib.data.Const whose layout is the field's layout, 2 member of the field's enumeration,
+    9 an object of an unexpected class / layout"""
+    import enum as pe
+    from amaranth.lib import data
+    t = target(lj, p)
+    if isinstance(o, data.Const):
+        ok = t is not None and t[0] not in ("leaf", "enum") and o.shape() == build(t)
+        return [1 if ok else 9, o.as_bits()]
+    if isinstance(o, pe.Enum):
+        ok = t is not None and t[0] == "enum" and type(o) is build_enum(t[1], t[2], t[3], t[4])
+        return [2 if ok else 9, o.value]
+    return [0 if type(o) is int else 9, int(o)]
+
+
+def struct_class(lj):
+    """data.Struct subclass declared with annotations for a top-level struct layout (fields read as attributes)."""
+    import types
+    from amaranth.lib import data
+    ann = {f"f{k}": build(f) for k, f in lj[1]}
+    return types.new_class("S", (data.Struct,), {}, lambda ns: ns.update({"__annotations__": ann}))
+
+
+def walk_attr(obj, l, p):
+    """like walk, but the first key is read as an attribute (data.Struct instances)"""
+    first = getattr(obj, pykey(l, p[0]))
+    return walk(first, sub(l, p[0]), p[1:])
 
 
 def walk(obj, l, p):
@@ -596,13 +841,14 @@ def make_flag(c, amaranth=True, intflag=False):
     from amaranth.lib import enum as aenum
     from amaranth.hdl import unsigned
     b = getattr(pe, c["b"])
+    kw = {} if c.get("defb") else {"boundary": b}          # defb: the class default (Flag: STRICT) is used
     if amaranth:
         base = aenum.IntFlag if intflag else aenum.Flag
         ns = aenum.EnumType.__prepare__("F", (base,))
         for i, v in enumerate(c["ms"]):
             ns[f"M{i}"] = v
-        return aenum.EnumType("F", (base,), ns, shape=unsigned(c["w"]), boundary=b)
-    return pe.Flag("F", [(f"M{i}", v) for i, v in enumerate(c["ms"])], boundary=b)
+        return aenum.EnumType("F", (base,), ns, shape=unsigned(c["w"]), **kw)
+    return pe.Flag("F", [(f"M{i}", v) for i, v in enumerate(c["ms"])], **kw)
 
 
 def fres(r):
@@ -625,11 +871,20 @@ def run_impl(c):
         return _probe_signed_enum() if c["which"] == "signed_enum" else _probe_flag_invert()[:2]
     if k.startswith("flag"):
         return run_flag(c)
+    if k == "flexnew":
+        from amaranth.lib import data
+        try:
+            data.FlexibleLayout(c["sz"], {f"f{k_}": data.Field(build(f), off) for k_, off, f in c["fs"]})
+            return [1]
+        except Exception as e:
+            return [0, code(e)]
     if k in ("enum_const", "enum_bits"):
         E = build_enum(c["w"], c["sg"], c["vw"], c["ms"])
         try:
             if k == "enum_const":
-                return [1, Const.cast(E.const(c["i"])).value]
+                mode = c.get("mode", "int")
+                arg = None if mode == "none" else (E(c["i"]) if mode == "member" else c["i"])
+                return [1, Const.cast(E.const(arg)).value]
             return [1, E.from_bits(c["raw"]).value]
         except Exception as e:
             return [0, code(e)]
@@ -659,9 +914,15 @@ def run_impl(c):
         assert cst.as_value().value == cst.as_bits()
         for p in c["ps"]:
             try:
-                out += [1, val(walk(cst, lj, p))]
+                out += [1] + tval(walk(cst, lj, p), lj, p)
             except Exception as e:
                 out += [0, code(e)]
+        return out
+    if k == "synth":
+        rows = sim_synth(c)
+        out = list(rows) + [-7]
+        for r in rows:
+            out += [0, r]
         return out
     if k == "xconst":
         try:
@@ -705,11 +966,19 @@ def run_impl(c):
     sig = Signal(L.size, init=c["tv"])
     view = data.View(L, sig)
     if k == "view":
+        if c.get("cls"):
+            view = struct_class(lj)(sig)          # data.Struct subclass; first key read as an attribute
+
         def fn(ctx):
             out = []
             for p in c["ps"]:
                 try:
-                    out += [1, val(ctx.get(walk(view, lj, p)))]
+                    o = walk_attr(view, lj, p) if c.get("cls") else walk(view, lj, p)
+                    out += [1] + tval(ctx.get(o), lj, p)
+                except KeyError as e:
+                    out += [0, code(e)]
+                except AttributeError as e:       # attribute access on a Struct: missing field
+                    out += [0, 1 if c.get("cls") else code(e)]
                 except Exception as e:
                     out += [0, code(e)]
             return out
@@ -788,8 +1057,17 @@ def run_flag(c):
     def fn(ctx):
         ctx.set(s.as_value(), c["x"])
         try:
+            rhs = c.get("rhs", "view")
             if k == "flag_fvnot":
                 e = ~s
+            elif k == "flag_fvbad":
+                G = make_flag(c)                                   # another class with the same members
+                other = {"int": 1, "rint": 1, "other": Signal(G), "value": Signal(c["w"])}[rhs]
+                e = ops[c["o"]](other, s) if rhs == "rint" else ops[c["o"]](s, other)
+            elif rhs == "member":
+                e = ops[c["o"]](s, F(c["y"]))
+            elif rhs == "rmember":
+                e = ops[c["o"]](F(c["y"]), s)
             else:
                 ctx.set(t.as_value(), c["y"])
                 e = ops[c["o"]](s, t)
@@ -810,19 +1088,23 @@ def coq_term(c):
     if k == "getfield":
         return f"k_getfield {g_layout(c['l'])} {z(c['key'])}"
     if k == "const":
-        return f"k_const {g_layout(c['l'])} {g_init(c['i'])} {g_paths(c['ps'])}"
+        return f"k_const_t {g_layout(c['l'])} {g_init(c['i'])} {g_paths(c['ps'])}"
+    if k == "synth":
+        return g_synth(c)
     if k == "xconst":
         return f"k_xconst {g_layout(c['l'])} {g_xinit(c['i'])} {g_paths(c['ps'])}"
     if k == "siginit":
-        return f"k_siginit {g_layout(c['l'])} {g_xinit(c['i'])} {g_paths(c['ps'])}"
+        return f"k_siginit_f {g_layout(c['l'])} {g_xinit(c['i'])} {g_paths(c['ps'])}"
     if k == "bits":
         return f"k_bits {g_layout(c['l'])} {z(c['raw'])}"
     if k == "view":
-        return f"k_view {g_layout(c['l'])} {z(c['tv'])} {g_paths(c['ps'])}"
+        return f"k_view_t {g_layout(c['l'])} {z(c['tv'])} {g_paths(c['ps'])}"
     if k == "viewdyn":
         return f"k_viewdyn {g_layout(c['l'])} {z(c['tv'])} {zlist(c['p'])} {z(c['idx'])}"
     if k == "assign":
         return f"k_assign {g_layout(c['l'])} {z(c['tv'])} {zlist(c['p'])} {z(c['x'])}"
+    if k == "flexnew":
+        return f"k_flexnew {z(c['sz'])} [" + "; ".join(f"({z(k_)}, ({z(o)}, {g_layout(f)}))" for k_, o, f in c["fs"]) + "]"
     if k == "enum_const":
         return f"k_enum_const (Sh {z(c['w'])} {blit(c['sg'])}) {zlist(c['ms'])} {z(c['i'])}"
     if k == "enum_bits":
@@ -838,6 +1120,8 @@ def coq_term(c):
         return f"k_flag_fvop {F} {c['o']} {z(c['x'])} {z(c['y'])}"
     if k == "flag_fvnot":
         return f"k_flag_fvnot {F} {z(c['x'])}"
+    if k == "flag_fvbad":
+        return "k_flag_fvbad"
     if k == "flag_const":
         return f"k_flag_const {F} {z(c['i'])}"
     if k == "flag_bits":
@@ -855,6 +1139,8 @@ def classify(c):
 
 
 def nontrivial(c, obs):
+    if c["k"] == "flexnew":
+        return len(c["fs"]) > 0
     if "l" in c:
         l = c["l"]
         return lsize(l) > 0 and len(keys_of(l)) > 0
